@@ -111,6 +111,16 @@ def run(ck):
             flow.equivalent(cnd, flow.NOT(('atom', list(atoms)[0])))[0]
     ck.ob('PROV-symmetry-constraints', ism.loc(mkc), ok, 'a coset {i: members} yields exactly the constraints (i, t) for every other member t -- the members are not ordered among themselves '
           '(they need not stay interchangeable once i is fixed)', key='PROV-symmetry-constraints')
+    # both search entry points derive their symmetry constraints from the *pattern* graph (the subgraph), with that graph's own partitions and colours
+    triples = {}
+    for name in ('find_isomorphisms', 'largest_common_subgraph'):
+        m_ = ck.need(method(ism.cls('ISMAGS'), name), 'ISMAGS.{} vanished'.format(name))
+        ck.analysed(ism, m_)
+        triples[name] = [[u(a) for a in c.args] for c in walk_local(m_) if isinstance(c, ast.Call) and call_attr(c) == 'analyze_symmetry']
+    want = [['self.subgraph', 'self._sgn_partitions', 'self._sge_colors']]
+    ck.ob('PROV-symmetry-constraints', IS, all(v == want for v in triples.values()),
+          'the constraints that break symmetry are computed on the pattern graph with its own node partitions and edge colours, in both search entry points ({}); constraints taken from the '
+          'other graph would apply to atoms that are not equivalent'.format(triples), key='PROV-symmetry-constraints|source')
     # _patch_modification: the new indices are assigned in the order the added atoms are united
     pmf = mod.func('_patch_modification')
     ck.analysed(mod, pmf)
